@@ -273,7 +273,7 @@ func TBE(reftree *tree.Tree, boottrees <-chan tree.Trees, cpu int,
 			}
 			wg.Wait()
 		}
-		if computeavgtaxa || computeperbranchtaxa {
+		if computeavgtaxa {
 			for _, t := range tips {
 				if nbranchclose > 0 {
 					movedspecies[t.TipIndex()] += float64(movedspeciestmp[t.TipIndex()]) / float64(nbranchclose)
